@@ -1,0 +1,32 @@
+//go:build verif
+
+package asp
+
+import (
+	"bytes"
+
+	"github.com/thought-machine/please/src/core"
+)
+
+// A ScopeForVerif keeps the scope of an interpreted package file so that its variables can be rendered again
+// later, after other files have been interpreted by the same Parser.
+type ScopeForVerif struct{ s *scope }
+
+// EvalScopeForVerif is EvalForVerif that returns the package scope instead of its rendering.
+func (p *Parser) EvalScopeForVerif(pkg *core.Package, src []byte, mode core.ParseMode) (*ScopeForVerif, error) {
+	p.limiter.Acquire()
+	defer p.limiter.Release()
+
+	stmts, err := p.parseAndHandleErrors(&namedReader{r: bytes.NewReader(src), name: pkg.Filename})
+	if err != nil {
+		return nil, err
+	}
+	s, err := p.interpreter.interpretAll(pkg, nil, nil, mode, stmts)
+	if err != nil {
+		return nil, err
+	}
+	return &ScopeForVerif{s: s}, nil
+}
+
+// Render renders the scope's variables the way EvalForVerif does.
+func (s *ScopeForVerif) Render(types bool) string { return renderScopeForVerif(s.s, types) }
